@@ -52,7 +52,8 @@ class P(Property):
     # ------------------------------------------------------------------ generation
     def healthy_events(self, rng, i):
         """(events, payload bytes) of a well-formed message body after the HEADERS frame"""
-        evs, data = ['h'], []
+        # 'hk<j>' / 'tk0': sections RFC 9114 calls malformed but h3's gate (C12) accepts - healthy messages for h3
+        evs, data = [rng.choice(['h'] * 9 + ['hk0', 'hk1', 'hk2', 'hk3'])], []
         ctr = 0
         for _ in range(rng.choice([0, 1, 1, 2, 2, 3])):
             n = rng.choice([0, 1, 2, 3, 4, 6, 9])
@@ -72,9 +73,45 @@ class P(Property):
                 evs.append('m' + hx(rest[:k]))
                 rest = rest[k:]
         if rng.random() < 0.3:
-            evs.append('t')
+            evs.append(rng.choice(['t', 't', 't', 'tk0']))
         evs.append('F')
         return evs, data
+
+    @staticmethod
+    def decorate(rng, evs):
+        """chunking that is not at frame starts: complete HEADERS / trailer frames (and DATA frame headers) cut into
+        several transport chunks; in healthy messages, one chunk carrying the end of a payload AND the next frame"""
+        out = list(evs)
+        # h3 reads one transport event ahead; with a RESET queued behind, how many bytes were handed out before it depends
+        # on where the chunks are cut (the model knows chunk = event), so only the first frame is cut in such scripts
+        healthy = not any(e[0] == 'R' for e in evs)
+        # which events complete a DATA payload (with at least one byte in this event)
+        completes, owed = set(), 0
+        for k, e in enumerate(out):
+            if e[0] == 'd' and ':' in e and not e.startswith('dq'):
+                tot, part = e[1:].split(':')
+                n = 0 if part == '-' else len(part) // 2
+                owed = int(tot) - n
+                if owed == 0 and n > 0:
+                    completes.add(k)
+            elif e[0] == 'm':
+                owed -= len(e[1:]) // 2
+                if owed == 0:
+                    completes.add(k)
+        for k, e in enumerate(out):
+            if k > 0 and not healthy:
+                break
+            if e in ('h', 't', 'ho', 'to') or e[:2] in ('hm', 'tm', 'hk', 'tk'):
+                if rng.random() < 0.3:
+                    out[k] = '%s*%d' % (e, rng.choice([2, 2, 3, 5]))
+            elif e[0] == 'd' and ':' in e and rng.random() < 0.15:
+                out[k] = e + '*2'
+        if healthy:
+            for k in sorted(completes):
+                nxt = out[k + 1] if k + 1 < len(out) else 'F'
+                if nxt[0] in 'dt' and '*' not in out[k] and '*' not in nxt and not out[k - 1].endswith('+') and rng.random() < 0.35:
+                    out[k] = out[k] + '+'
+        return out
 
     def reset_script(self, rng, role, evs):
         """cut a healthy script at a seeded byte offset and reset there"""
@@ -84,7 +121,7 @@ class P(Property):
         out = body[:j]
         if j < len(body) and rng.random() < 0.6:
             e = body[j]
-            if e == 'h':
+            if e[0] == 'h':
                 out.append('hp%d' % rng.randint(1, PEER_HEADERS_LEN[role] - 1))
             elif e[0] == 'd':
                 tot, part = e[1:].split(':')
@@ -95,7 +132,7 @@ class P(Property):
                     out.append('d%s:%s' % (tot, hx(pl[:rng.randrange(len(pl))])))
                 else:
                     out.append('dq' + tot)
-            elif e == 't':
+            elif e[0] == 't':
                 out.append('tp%d' % rng.randint(1, 5))
             elif e[0] == 'm':
                 pl = bytes.fromhex(e[1:])
@@ -125,7 +162,7 @@ class P(Property):
             elif kind == 'oversized':
                 evs = ['ho'] + (evs[1:] if rng.random() < 0.5 else [])
             elif kind in ('trlbad', 'trlbig'):
-                body = [e for e in evs[:-1] if e != 't']
+                body = [e for e in evs[:-1] if e[0] != 't']
                 evs = body + ['tm%d' % rng.randrange(4) if kind == 'trlbad' else 'to']
                 r = rng.random()
                 if r < 0.8:
@@ -144,6 +181,7 @@ class P(Property):
                                       ['h', 'tq', 'F'], ['h', 't', 'd1:aa', 'F'], ['h', 't', 't', 'F'], ['h', 'tp2', 'F']])
                     if not evs:
                         evs = ['F']
+            evs = self.decorate(rng, evs)
             pad = rng.choice([0, 0, 0, 0, 1, 7, 30])
             z = (H_SRV_RESP if role == 's' else H_CLI_REQ) + ((3 + pad + 32) if pad else 0)
             body = [((i + 9) << 4 | k) & 0xff for k in range(rng.choice([0, 1, 2, 5]))]
@@ -263,7 +301,8 @@ class P(Property):
         times afterwards (and, server, after the stream was accepted): C07_completes says 5 polls finish them"""
         w = case.split()
         reqs = w[3][2:].split('/')
-        nev = [len(r.split(';')[0].split('.')) for r in reqs]
+        evl = [r.split(';')[0].split('.') for r in reqs]
+        nev = [len(x) for x in evl]
         acts = w[4][6:].split(',')
         left = list(nev)
         opened = [w[1] == 'c'] * len(reqs)
@@ -274,7 +313,7 @@ class P(Property):
                 if a[0] == 'o':
                     opened[i] = True
                 elif a[0] == 'e' and left[i] > 0:
-                    left[i] -= 1
+                    left[i] -= 2 if evl[i][nev[i] - left[i]].endswith('+') else 1
                 elif a[0] == 'p' and left[i] == 0 and opened[i]:
                     polls[i] += 1
         return {i for i in range(len(reqs)) if polls[i] >= 6}
@@ -330,7 +369,13 @@ class P(Property):
             if toks[k][0] in 'og':
                 continue
             t = toks[:k] + toks[k + 1:]
-            out.append(' '.join(w[:4] + ['sched=' + (','.join(t) or '-')]))
+            cfg = w[2]
+            if not cfg.startswith('cfg=g-'):
+                # the grease holder is a function of the schedule: keep the case line consistent
+                reqs = w[3][2:].split('/')
+                zs = [int(r.split(';')[3]) for r in reqs]
+                cfg = 'cfg=g%s,%s' % (self.grease_holder(w[1], len(reqs), zs, t), cfg.split(',')[1])
+            out.append(' '.join([w[0], w[1], cfg, w[3], 'sched=' + (','.join(t) or '-')]))
             if len(out) >= 60:
                 break
         return out
